@@ -31,6 +31,12 @@ use crate::Config as FerrousConfig;
 /// Connection ID generator
 static CONN_ID_COUNTER: AtomicU64 = AtomicU64::new(1);
 
+/// Leave out the next `n` connection ids (lets a checker put connections into the same shard of the table)
+#[cfg(feature = "verif-hooks")]
+pub fn verif_skip_conn_ids(n: u64) {
+    CONN_ID_COUNTER.fetch_add(n, Ordering::Relaxed);
+}
+
 /// Number of shards for connection storage
 const CONNECTION_SHARDS: usize = 16;
 
